@@ -19,6 +19,8 @@ import SigModel.Lemmas.C01
 import SigModel.Lemmas.C01b
 import SigModel.Lemmas.C01c
 import SigModel.Lemmas.C01d
+import SigModel.Model.TlvSeg
+import SigModel.Lemmas.C01seg
 
 namespace SigModel.Props.C01
 open SigModel.Tlv
@@ -386,5 +388,173 @@ example : readDict (packDict [([19], [0, 2]), ([1, 1], [1])]) 3
 
 example : blockLowHigh [1000, 900, 1300] = (900, 1300) ∧
     decTs (tsBlock 900 1300 [1000, 900, 1300]) 3 = .ok [1000, 900, 1300] := by decide
+
+/-! ## 6. a segment of several blocks
+
+`Model/TlvSeg.lean`: a segment is a list of blocks, a block the list of the column's values, one per event
+(`none` = the event lacks the column).  The record length the segment advertises (`SegSt.hint`, i.e.
+`AllSeenColumnSizes[col]` → `SegMeta.ColumnNames[col].ConsistentCvalSize`) and the segment's `RecordCount` live
+across the blocks; the column buffer, its dictionary, `columnsInBlock` and the block's record number are per block. -/
+
+/-- The statement of C01.6 for a given writer `w` (the fixed one, `writeSeg`, or the one before fix b7f8683,
+`writeSegOld`): for EVERY cardinality limit and EVERY segment of well-formed values — any number of blocks, the
+column present, null, absent from single events, appearing late in a block, absent from whole blocks, with
+records of equal or different lengths — EVERY block `j` in which the column occurs was handed to the block
+writer as exactly one record per event of that block (`stored`: the values as filled, or their type consolidation
+when the block was rewritten at its flush), and the raw reader, given that block and the record length the segment
+FINALLY advertises, answers ANY sequence of record seeks with exactly the record of the event asked for. -/
+def SegmentRoundtrip (w : Nat → List (List (Option Val)) → SegSt) : Prop :=
+  ∀ (lim : Nat) (seg : List (List (Option Val))), (∀ evs ∈ seg, ∀ v ∈ evs, ∀ x, v = some x → wf x) →
+    ∀ (j : Nat) (hj : j < seg.length), (∃ v ∈ seg[j], v.isSome) →
+    ∀ (ns : List Nat), (∀ n ∈ ns, n < seg[j].length) →
+      ∃ blk, (w lim seg).blocks[j]? = some blk ∧
+        (storedVals blk.mixed (seg[j].map getB)).length = seg[j].length ∧
+        blk.buf = encCol (storedVals blk.mixed (seg[j].map getB)) ∧
+        ∃ rd, Rd.init blk.buf (w lim seg).hint = .ok rd ∧
+          rd.readMany ns = ns.map (fun n => .ok (encTLV ((storedVals blk.mixed (seg[j].map getB))[n]!)))
+
+/-- C01.6 Multi-block round trip of a column (writer as it is after fix b7f8683): see `SegmentRoundtrip`.
+Composition of C01.1–3 (`readMany`/`seekConst` lemmas) with an invariant over ALL events and flushes of the
+segment: whenever the advertised length is a genuine size `c`, every record of every block that has the column
+is `c` bytes long and no block was rewritten by the consolidation. -/
+theorem segment_roundtrip (lim : Nat) (seg : List (List (Option Val)))
+    (hwf : ∀ evs ∈ seg, ∀ v ∈ evs, ∀ x, v = some x → wf x)
+    (j : Nat) (hj : j < seg.length) (hsome : ∃ v ∈ seg[j], v.isSome)
+    (ns : List Nat) (hns : ∀ n ∈ ns, n < seg[j].length) :
+    ∃ blk, (writeSeg lim seg).blocks[j]? = some blk ∧
+      (storedVals blk.mixed (seg[j].map getB)).length = seg[j].length ∧
+      blk.buf = encCol (storedVals blk.mixed (seg[j].map getB)) ∧
+      ∃ rd, Rd.init blk.buf (writeSeg lim seg).hint = .ok rd ∧
+        rd.readMany ns = ns.map (fun n => .ok (encTLV ((storedVals blk.mixed (seg[j].map getB))[n]!))) :=
+  Lemmas.C01.segInv_read (Lemmas.C01.writeSeg_inv lim seg) hwf j hj hsome ns hns
+
+/-- `segment_roundtrip` is the statement `SegmentRoundtrip` for the fixed writer -/
+theorem segment_roundtrip_stmt : SegmentRoundtrip writeSeg :=
+  fun lim seg hwf j hj hsome ns hns => segment_roundtrip lim seg hwf j hj hsome ns hns
+
+/-- For a block that was not rewritten at its flush the record returned is the encoding of the event's own value
+(absent = null = the back-fill record). -/
+theorem segment_roundtrip_plain (lim : Nat) (seg : List (List (Option Val)))
+    (hwf : ∀ evs ∈ seg, ∀ v ∈ evs, ∀ x, v = some x → wf x)
+    (j : Nat) (hj : j < seg.length) (hsome : ∃ v ∈ seg[j], v.isSome)
+    (ns : List Nat) (hns : ∀ n ∈ ns, n < seg[j].length) :
+    ∃ blk, (writeSeg lim seg).blocks[j]? = some blk ∧ (blk.mixed = false →
+      ∃ rd, Rd.init blk.buf (writeSeg lim seg).hint = .ok rd ∧
+        rd.readMany ns = ns.map (fun n => .ok (encTLV (getB (seg[j][n]!))))) := by
+  obtain ⟨blk, h1, _, _, rd, h4, h5⟩ := segment_roundtrip lim seg hwf j hj hsome ns hns
+  refine ⟨blk, h1, fun hm => ⟨rd, h4, ?_⟩⟩
+  rw [h5, hm]
+  apply List.map_congr_left
+  intro n hn
+  have := hns n hn
+  simp [storedVals, this]
+
+/-- The same holds WHILE a further block is being filled (events `tail` after the last flush): the length
+advertised at that moment is sound for every block flushed so far. -/
+theorem segment_roundtrip_open (lim : Nat) (seg : List (List (Option Val))) (tail : List (Option Val))
+    (hwf : ∀ evs ∈ seg, ∀ v ∈ evs, ∀ x, v = some x → wf x)
+    (j : Nat) (hj : j < seg.length) (hsome : ∃ v ∈ seg[j], v.isSome)
+    (ns : List Nat) (hns : ∀ n ∈ ns, n < seg[j].length) :
+    ∃ blk, ((writeSeg lim seg).fillOpen lim tail).blocks[j]? = some blk ∧
+      blk.buf = encCol (storedVals blk.mixed (seg[j].map getB)) ∧
+      ∃ rd, Rd.init blk.buf ((writeSeg lim seg).fillOpen lim tail).hint = .ok rd ∧
+        rd.readMany ns = ns.map (fun n => .ok (encTLV ((storedVals blk.mixed (seg[j].map getB))[n]!))) := by
+  obtain ⟨blk, h1, _, h3, h4⟩ :=
+    Lemmas.C01.segInv_read (Lemmas.C01.writeSeg_open_inv lim seg tail) hwf j hj hsome ns hns
+  exact ⟨blk, h1, h3, h4⟩
+
+/-- what a genuine advertised size means for the whole segment: every record of every block in which the column
+occurs has that length, and none of these blocks was rewritten by the type consolidation -/
+theorem segment_hint_consistent (lim : Nat) (seg : List (List (Option Val))) (c : Nat)
+    (h : (writeSeg lim seg).size = some c) (hc : c ≠ inconsistent) :
+    (∀ evs ∈ seg, (∃ v ∈ evs, v.isSome) → ∀ v ∈ evs, (encTLV (getB v)).length = c) ∧
+    ∀ b ∈ (writeSeg lim seg).blocks, b.mixed = false := by
+  have inv := Lemmas.C01.writeSeg_inv lim seg
+  refine ⟨(inv.cons c h hc).1, fun b hb => ?_⟩
+  cases hm : b.mixed with
+  | false => rfl
+  | true =>
+    have := inv.mixedInc b hb hm
+    rw [h] at this
+    exact absurd (Option.some.inj this) hc
+
+/-- a block in which no event carries the column has no bytes for it (AppendWipToSegfile does not write the
+column for that block), and there is one entry per block -/
+theorem segment_absent_block (lim : Nat) (seg : List (List (Option Val))) :
+    (writeSeg lim seg).blocks.length = seg.length ∧
+    ∀ (j : Nat) (hj : j < seg.length), (¬ ∃ v ∈ seg[j], v.isSome) →
+      ∃ blk, (writeSeg lim seg).blocks[j]? = some blk ∧ blk.buf = [] := by
+  have inv := Lemmas.C01.writeSeg_inv lim seg
+  refine ⟨inv.nblocks, fun j hj hno => ?_⟩
+  have hjb : j < (writeSeg lim seg).blocks.length := by rw [inv.nblocks]; exact hj
+  have hmem : ((writeSeg lim seg).blocks[j], seg[j]) ∈ (writeSeg lim seg).blocks.zip seg := by
+    rw [List.mem_iff_getElem]
+    exact ⟨j, by simp; omega, by simp⟩
+  exact ⟨_, by simp [hjb], ((inv.rel _ hmem).2 hno).1⟩
+
+/-- Before fix b7f8683 the statement was FALSE (`writeSegOld`: backFillPastRecords did not report the 1-byte
+back-fill records to AllSeenColumnSizes). Witness: cardinality limit 2 (so that block 2 is not dictionary
+encoded), block 1 = [{x:2}], block 2 = [{}, {x:0}]. Block 1 gives x the record length 9; in block 2 x is new to
+the BLOCK at block record 1, one back-fill byte is written for record 0 without telling the segment, the 9-byte
+number agrees with the advertised 9 — the segment advertises 9, and record 1 of block 2 is sought at offset 9 of
+a 10-byte block. On the real code: `x<3` on the rotated segment missed the event with x=0. -/
+theorem segment_roundtrip_old_counterexample : ¬ SegmentRoundtrip writeSegOld := by
+  intro h
+  obtain ⟨blk, h1, _, _, rd, h2, h3⟩ := h 2 [[some (.num .i64 2)], [none, some (.num .i64 0)]]
+    (by intro evs he v hv x hx; subst hx
+        simp at he
+        rcases he with rfl | rfl <;> simp at hv <;> subst hv <;> decide)
+    1 (by decide) ⟨some (.num .i64 0), by decide, rfl⟩ [1] (by decide)
+  have hb : (writeSegOld 2 [[some (.num .i64 2)], [none, some (.num .i64 0)]]).blocks[1]?
+      = some { mixed := false, buf := [19, 16, 0, 0, 0, 0, 0, 0, 0, 0], de := 2 } := by decide
+  have hh : (writeSegOld 2 [[some (.num .i64 2)], [none, some (.num .i64 0)]]).hint = 9 := by decide
+  rw [hb] at h1
+  cases h1
+  rw [hh] at h2
+  have hinit : Rd.init [19, 16, 0, 0, 0, 0, 0, 0, 0, 0] 9
+      = .ok { buf := [19, 16, 0, 0, 0, 0, 0, 0, 0, 0], constLen := 9, recNum := 0, off := 0, recLen := 9 } := by
+    decide
+  rw [hinit] at h2
+  cases h2
+  revert h3
+  decide
+
+/-- the fixed writer on the same witness: the segment advertises INCONSISTENT and record 1 of block 2 is found -/
+example : (writeSeg 2 [[some (.num .i64 2)], [none, some (.num .i64 0)]]).hint = inconsistent ∧
+    (writeSeg 2 [[some (.num .i64 2)], [none, some (.num .i64 0)]]).blocks.map (·.buf)
+      = [[16, 2, 0, 0, 0, 0, 0, 0, 0], [19, 16, 0, 0, 0, 0, 0, 0, 0, 0]] ∧
+    seekConst inconsistent [19, 16, 0, 0, 0, 0, 0, 0, 0, 0] 1 = some (encTLV (.num .i64 0)) := by decide
+
+/-- non-vacuity, genuine consistent size over three blocks (numbers, then a block WITHOUT the column, then
+6-byte strings: all records 9 bytes; the column starts every block it occurs in at record 0): the segment
+advertises 9 and the shortcut finds record 1 of block 3 -/
+example : (writeSeg 501 [[some (.num .i64 1), some (.num .i64 2)], [none, none],
+        [some (.str [97, 98, 99, 100, 101, 102]), some (.str [103, 104, 105, 106, 107, 108])]]).hint = 9 ∧
+    (writeSeg 501 [[some (.num .i64 1), some (.num .i64 2)], [none, none],
+        [some (.str [97, 98, 99, 100, 101, 102]), some (.str [103, 104, 105, 106, 107, 108])]]).blocks.map (·.buf)
+      = [[16, 1, 0, 0, 0, 0, 0, 0, 0, 16, 2, 0, 0, 0, 0, 0, 0, 0], [],
+         [2, 6, 0, 97, 98, 99, 100, 101, 102, 2, 6, 0, 103, 104, 105, 106, 107, 108]] ∧
+    seekConst 9 [2, 6, 0, 97, 98, 99, 100, 101, 102, 2, 6, 0, 103, 104, 105, 106, 107, 108] 1
+      = some (encTLV (.str [103, 104, 105, 106, 107, 108])) := by decide
+
+/-- non-vacuity, inconsistent size over two blocks: (a) the column disappears from the events of block 2 after its
+first record, (b) a block with a string and a number is rewritten at its flush and marked — in both cases the
+segment advertises INCONSISTENT -/
+example : (writeSeg 501 [[some (.num .i64 1)], [some (.num .i64 2), none]]).hint = inconsistent ∧
+    (writeSeg 501 [[some (.num .i64 1)], [some (.num .i64 2), none]]).blocks.map (·.buf)
+      = [[16, 1, 0, 0, 0, 0, 0, 0, 0], [16, 2, 0, 0, 0, 0, 0, 0, 0, 19]] ∧
+    (writeSeg 501 [[some (.num .i64 1)], [some (.str [97, 98, 99, 100, 101, 102]), some (.num .i64 12)]]).hint
+      = inconsistent ∧
+    (writeSeg 501 [[some (.num .i64 1)], [some (.str [97, 98, 99, 100, 101, 102]), some (.num .i64 12)]]).blocks.map
+        (fun b => (b.mixed, b.buf))
+      = [(false, [16, 1, 0, 0, 0, 0, 0, 0, 0]), (true, [2, 6, 0, 97, 98, 99, 100, 101, 102, 2, 2, 0, 49, 50])] := by
+  decide
+
+/-- the bloom of a column outlives the block (resetWipBlock keeps columnBlooms): a block of numbers after a block of
+strings is treated as mixed at its flush (rewritten to itself, marked INCONSISTENT, bloom dropped); a third block
+of numbers is not -/
+example : (writeSeg 501 [[some (.str [97])], [some (.num .i64 5)], [some (.num .i64 6)]]).blocks.map (·.mixed)
+      = [false, true, false] ∧
+    (writeSeg 501 [[some (.str [97])], [some (.num .i64 5)], [some (.num .i64 6)]]).hint = inconsistent := by decide
 
 end SigModel.Props.C01
